@@ -1,5 +1,99 @@
-import FGVerif.Driver.Shared
-/-! driver operations for C15 (stub: replaced by the property's own driver) -/
+import FGVerif.Driver.C14
+import FGVerif.Model.C15
+/-! driver operations for C15 -/
 namespace C15
-def handle : List SExp → Option SExp := fun _ => none
+open SExp C13 C14
+
+/-- rebuild a simple `Graph` from a canonical form (adjacency in sorted-edge order; only used for
+    order-insensitive checks) -/
+def graphOfCanon (c : Canon) : Graph :=
+  let r : Graph := { multi := false, nodes := c.nodes, adj := c.nodes.map fun n => (n.1, []) }
+  c.edges.foldl (fun r e =>
+    match e with
+    | [u, v, t, a, b] => addEdgeKey r u v 0 (if t == 0 then .s a else if t == 1 then .p a b else .nil)
+    | _ => r) r
+
+def asSample : SExp → Option (Canon × Canon × Canon)
+  | .list [x, g, h] => do pure (← asCanon x, ← asCanon g, ← asCanon h)
+  | _ => none
+
+/-- the property on one (implementation) sample: balanced, mapped, superposition; for Diels-Alder
+    samples also the reaction-centre shape -/
+def sampleOk (da : Bool) (x g h : Graph) : Bool :=
+  balancedMappedB x g h && superpositionB x (getIts g h) && (!da || daCentreOk x)
+
+def sampleFlags (da : Bool) (x g h : Graph) : SExp :=
+  .list [ofBool (balancedMappedB x g h), ofBool (superpositionB x (getIts g h)), ofBool (!da || daCentreOk x)]
+
+def ofSample (x : Graph) : SExp :=
+  let gh := reaction x
+  .list [canonGraph x, canonGraph gh.1, canonGraph gh.2]
+
+def asPath : SExp → Option (Nat × List Nat) := asPair asNat (asList asNat)
+
+def handle : List SExp → Option SExp
+  -- split of one expanded pattern
+  | .atom "reaction" :: da :: x :: rest => do
+      let da ← asBool da
+      let x ← asGraph x
+      let gh := reaction x
+      let specImpl ← match rest with
+        | [.list [.atom "raised", _]] => pure (ofBool false)
+        | [.list [g, h]] => do
+            let g ← asCanon g
+            let h ← asCanon h
+            pure (ofBool (sampleOk da x (graphOfCanon g) (graphOfCanon h)))
+        | _ => pure none'
+      -- the decidable hypotheses of `C15.superposition` / `balanced_mapped_of` on this sample
+      let hyp := wf x && !x.multi && x.edges.all (fun e => match e.2.2.2 with
+        | .s o => o != 0 | .p a b => !(a == 0 && b == 0) | .nil => false) &&
+        closedB x && nodupB x.nodeIds && x.nodes.all (fun p => p.2.aam == some (p.1 + 1))
+      pure (.list [.atom "ok", .list [canonGraph gh.1, canonGraph gh.2], ofBool (sampleOk da x gh.1 gh.2), specImpl, ofBool hyp])
+  -- individual samples of a configuration along given choice paths
+  | .atom "paths" :: da :: cfg :: cores :: aam :: paths :: rest => do
+      let da ← asBool da
+      let cfg ← asConfig cfg
+      let cores ← asList asGraph cores
+      let aam ← asBool aam
+      let paths ← asList asPath paths
+      let xs := paths.map fun p =>
+        match cores[p.1]? with
+        | some core => (buildPath cfg fuelMax core p.2).map (finish aam)
+        | none => .error .runtime
+      let model := .list (xs.map fun r => match r with | .ok x => ofSample x | .error e => ofErr e)
+      let specModel := xs.all fun r => match r with
+        | .ok x => let gh := reaction x; sampleOk da x gh.1 gh.2
+        | .error _ => false
+      let specImpl ← match rest with
+        | [.list [.atom "raised", _]] => pure (ofBool false)
+        | [impl] => do
+            let ss ← asList asSample impl
+            pure (ofBool (ss.length == paths.length && ss.all fun s =>
+              sampleOk da (graphOfCanon s.1) (graphOfCanon s.2.1) (graphOfCanon s.2.2)))
+        | _ => pure none'
+      pure (.list [.atom "ok", model, ofBool specModel, specImpl])
+  -- whole enumeration: fingerprints of (X, g, h) in order + model-side flags
+  | .atom "enum_fp" :: da :: cfg :: cores :: aam :: _ => do
+      let da ← asBool da
+      let cfg ← asConfig cfg
+      let cores ← asList asGraph cores
+      let aam ← asBool aam
+      match generate cfg fuelMax aam cores with
+      | .error e => pure (.list [.atom "ok", ofErr e, ofBool true, none'])
+      | .ok xs =>
+        let fps := xs.map fun x =>
+          let gh := reaction x
+          SExp.list [fingerprint (canonGraph x), fingerprint (canonGraph gh.1), fingerprint (canonGraph gh.2),
+                     ofBool (sampleOk da x gh.1 gh.2)]
+        let allOk := xs.all fun x => let gh := reaction x; sampleOk da x gh.1 gh.2
+        pure (.list [.atom "ok", .list fps, ofBool allOk, none', ofNat xs.length])
+  -- the property on implementation samples (canonical forms), thorough tier
+  | .atom "check_samples" :: da :: samples :: _ => do
+      let da ← asBool da
+      let ss ← asList asSample samples
+      let flags := ss.map fun s => sampleFlags da (graphOfCanon s.1) (graphOfCanon s.2.1) (graphOfCanon s.2.2)
+      let all := ss.all fun s => sampleOk da (graphOfCanon s.1) (graphOfCanon s.2.1) (graphOfCanon s.2.2)
+      pure (.list [.atom "ok", .list flags, ofBool true, ofBool all])
+  | _ => none
+
 end C15
